@@ -612,7 +612,7 @@ fn main() {
     let dump_corpus = args.extra.iter().any(|a| a == "--dump-corpus");
     let mut n_witness = 0usize; let mut n_witness_reproduced = 0usize;
     for (coq_name, m, meta, guard, label, doc_text, class) in [
-        ("shadow_model", shadow_model(), false, false, "shadow-root", "mutation { a }\n", "json-root-types-implicit"),
+        ("shadow_model", shadow_model(), false, true, "shadow-root", "mutation { a }\n", "regression: json-root-types-implicit (repaired)"),
         ("tiny_model", tiny_model(), true, true, "unused-builtin-variable", "query Q($v: Float) { __typename }\n", "sdl-unreferenced-builtin-scalars"),
         ("tiny_model", tiny_model(), true, true, "meta-type-fragment", "query Q { ...F }\nfragment F on Query { a }\nfragment G on __Type { name }\n", "json-meta-types-are-schema-types"),
     ] {
@@ -699,15 +699,15 @@ fn main() {
         // JSON route
         let (out_json, tag, ts_json) = json_route(&jt);
         let descr = json!({"kind": "routes", "label": label, "style": format!("{style:?}"), "meta": meta, "sdl": sdl, "json": jt, "json_route": tag});
-        let term = |strict: bool| format!("CRoutes {} {} {:?} {} [{}]%nat {} {} {} {} {}", coq_bool(strict), coq_bool(label != "shadow-root"), style, coq_bool(meta), jorder.iter().map(|k| k.to_string()).collect::<Vec<_>>().join("; "), coq_model(&m), ast_coq::tsdoc(&tsdoc), j.coq(), cschema(&ts_sdl), out_json);
+        let term = |strict: bool| format!("CRoutes {} {} {:?} {} [{}]%nat {} {} {} {} {}", coq_bool(strict), coq_bool(true), style, coq_bool(meta), jorder.iter().map(|k| k.to_string()).collect::<Vec<_>>().join("; "), coq_model(&m), ast_coq::tsdoc(&tsdoc), j.coq(), cschema(&ts_sdl), out_json);
         cases.push(term(false), descr.clone());
         st.n_routes += 1;
-        if label != "shadow-root" { st.n_guard += 1; }
+        st.n_guard += 1;
         if samples.len() < 2 { samples.push(json!({"kind": "routes", "label": label, "style": format!("{style:?}"), "meta": meta, "sdl": sdl, "json_route": tag})); }
         let Some(ts_json) = ts_json else { direct_failures.push(json!({"what": format!("the JSON route rejects a standard introspection result: {tag}"), "classes": [], "sdl": sdl, "json": jt})); continue; };
         // the unguarded comparison, on a few models where it is expected to differ
         let unused_builtin: Vec<&str> = BUILTIN_SCALARS.iter().filter(|b| !listed.iter().any(|t| t.name == **b)).cloned().collect();
-        if (meta || !unused_builtin.is_empty() || label == "shadow-root") && (st.n_strict_equiv < 6 || (label == "shadow-root" && st.n_strict_equiv < 8)) {
+        if (meta || !unused_builtin.is_empty()) && st.n_strict_equiv < 6 {
             st.n_strict_equiv += 1;
             let mut d = descr.clone();
             d["strict"] = json!(true); d["unused_builtin_scalars"] = json!(unused_builtin); d["shadow_root"] = json!(label == "shadow-root");
@@ -772,9 +772,10 @@ fn main() {
             if st.n_cli < n_cli_projects || (label == "shadow-root" && st.n_cli < n_cli_projects + 2) {
                 st.n_cli += 1;
                 let root = args.out.join("cli-projects");
-                let plain: Vec<String> = docs_for_cli.iter().filter(|(l, _)| l == "gen").map(|(_, d)| d.clone()).collect();
-                let labelled: Vec<String> = docs_for_cli.iter().filter(|(l, _)| l != "gen").map(|(_, d)| d.clone()).collect();
-                for (set_label, set) in [("gen", &plain), (if label == "shadow-root" { "shadow-root" } else { "unused-builtin-variable" }, &labelled)] {
+                // one project per document label: the generated documents together, each provoking document on its own
+                let mut sets: Vec<(String, Vec<String>)> = vec![("gen".into(), docs_for_cli.iter().filter(|(l, _)| l == "gen").map(|(_, d)| d.clone()).collect())];
+                for (l, d) in docs_for_cli.iter().filter(|(l, _)| l != "gen") { sets.push((l.clone(), vec![d.clone()])); }
+                for (set_label, set) in sets.iter().map(|(l, s)| (l.as_str(), s)) {
                     if set.is_empty() { continue; }
                     let (ok1, t1, log1) = run_cli_project(cli, &root.join(format!("m{i}-{set_label}-sdl")), "schema.graphql", &sdl, set);
                     let (ok2, t2, log2) = run_cli_project(cli, &root.join(format!("m{i}-{set_label}-json")), "schema.json", &jt, set);
